@@ -623,6 +623,11 @@ def real_opts(opts):
 # ---------------------------------------------------------------------------------------------
 
 def oracle_on_case(ctx: Ctx, case, verbose=False):
+    if case.get("kind") == "df-big":
+        v = big_df_case(case["n"])
+        if v:
+            ctx.violation(v[0], v[1], case)
+        return {"res": {}}
     kind = case["kind"]
     if kind == "tb":
         res = run_tb_real(case["pids"], case["devs"], case.get("uri", "out.json"))
@@ -702,8 +707,34 @@ def case_key(case):
     return json.dumps(case, sort_keys=True, default=str)
 
 
+def big_df_case(n):
+    """n slices of three ranks handed to the real DataframeExporter in ONE export() call (the final drain delivers a
+    trace like that): one row per slice, however many there are.  Returns (classifier, text) or None."""
+    import aiu_trace_analyzer.export.exporter as output
+    import aiu_trace_analyzer.trace_view as tv
+    objs = [tv.AbstractEventType.from_dict({"ph": "X", "name": f"k{i % 7}", "pid": i % 3, "tid": 1, "ts": float(i), "dur": 1.0 + i % 3,
+                                            "args": {"rank": i % 3}}) for i in range(n)]
+    exp = output.DataframeExporter(target_uri="unused.df", settings={"output": "unused.df", "save_to_file": False})
+    exp.export(objs)
+    exp.flush()
+    df = exp.get_data()
+    if len(df) != n:
+        return ("df-rows", f"{len(df)} DataFrame rows for {n} exported slices (one export() call)")
+    ts = list(df["Timestamp"]) if "Timestamp" in df.columns else None
+    if ts is not None and [float(x) for x in ts[:3] + ts[-3:]] != [0.0, 1.0, 2.0, float(n - 3), float(n - 2), float(n - 1)]:
+        return ("df-rows", "rows of a large export are not those of the slices, in order")
+    return None
+
+
 def run(ctx: Ctx):
     pending = []
+    for n in ([70001] if ctx.quick() else [70001, 140001]):
+        v = big_df_case(n)
+        case = {"kind": "df-big", "n": n}
+        if v:
+            ctx.violation(v[0], v[1], case)
+        ctx.count("df_large_exports")
+        ctx.case_done(case, key=("df-big", n), nontrivial=True)
     for gen in (gen_tb_cases, gen_df_cases, gen_e2e_cases):
         for case in gen(ctx):
             out = oracle_on_case(ctx, case)
